@@ -9,8 +9,30 @@ class C22(core.Prop):
     max_workers = 6
     technique = ("property-based testing (Hypothesis): generated profiles on a host and a link observed by isolated executions, "
                  "communications, samples and getters; reference model = the documented piecewise-constant function and its integral")
-    rule = ""
-    assumptions = []
+    rule = ("A scenario attaches 1-3 profiles (1-20 points at dates that are multiples of 1/8 s, duplicate dates and a point at date 0 allowed; "
+            "non periodic, or periodic with a period = last date + 0 / 0.125 / 0.5 / 1 / 2 / 4 s) to host h0 (speed ratio, state) and link l0 "
+            "(bandwidth, latency, state), under cpu/optim Lazy / Full / TI (TI: single-core hosts, repeating speed profiles of >= 2 points) and "
+            "network/optim Lazy / Full (CM02, no cross-traffic, no TCP window).  Observers: w0 on h0 (isolated executions, sleeps, "
+            "Host::get_available_speed), r0 on h1 (remote executions on h0's second core), s1 -> g2 (isolated communications over l0, "
+            "Link::get_bandwidth / get_latency / is_on), samples of speed / bandwidth / latency / state at every date the clock stops.  "
+            "Oracle = the documented piecewise-constant function (value of the latest point <= t, k-th repetition of (d, v) at k*period + d, "
+            "nominal value before the first point; speed values are ratios, the others absolute): (1) the speed_change / bandwidth_change / "
+            "onoff signals fire exactly at the dates and with the values of the profile, in order, up to the last date the clock reached; (2) "
+            "every sample and every getter equals the function; (3) an execution ends when the integral of speed reaches its flops, a "
+            "communication after latency(start) + the date where the integral of the bandwidth reaches its size; a latency event that does not "
+            "change the value, or that falls inside the transfer of an isolated flow, changes nothing; (4) a host / link going off kills "
+            "the actors of the host at that date (on_exit failed=true), fails remote executions (HostFailure) and communications (NetworkFailure) "
+            "at that date; activities started while it is off fail at once; an auto-restart actor reappears at the date the host comes back.  "
+            "NON-TRIVIAL: a profile event falls strictly inside an execution or a transfer, a state event kills / fails something, or the period "
+            "wraps at least twice.")
+    assumptions = ["dates compared with a relative tolerance of 1e-9 (precision/timing); values compared exactly",
+                   "at date 0 the first slice of the actors runs before the events of date 0 are applied: observations, the latency of a communication "
+                   "created at date 0 and its rate bound may use either value",
+                   "the end date of a communication whose latency is really changed while it pays its latency is not specified: not asserted (but "
+                   "it must end)",
+                   "a completion and a switch-off at the same date: either outcome, at that date",
+                   "TI: Host::get_load() / get_available_speed() on a fixed trace segfault (known under C19): host_info is replaced by speed_info "
+                   "and single-point TI profiles are not generated; every TI signature starts with cpu-TI:<class of profile>"]
 
     def strategy(self, tier):
         return profgen.scenarios(tier)
